@@ -90,6 +90,64 @@ def _c14_precedence(rec):
     return rec.get("kind") == "tree_differs_from_reference_substitution" and d.get("explained_by_textual_instantiation") is True
 
 
+def _c14_match_lines(rec):
+    """(text before the match on its line, matched text) for every applied match of a C14 record."""
+    d = rec.get("detail") or {}
+    src = rec.get("input") or ""
+    out = []
+    for t in d.get("applied_texts") or []:
+        i = src.find(t)
+        if i >= 0:
+            out.append((src[src.rfind("\n", 0, i) + 1:i], t))
+    return out
+
+
+@classifier("sub-later-statements-of-replacement-escape-the-block")
+def _c14_escape(rec):
+    """A replacement of several statements is indented line by line from the text around the match: when the match shares its line with the header of its
+    block (`if a: x = 1`), or continues on a line that is indented less than its first line, or is indented with tabs, the second and later statements of the
+    replacement land outside the block (or the edit is dropped)."""
+    d = rec.get("detail") or {}
+    if rec.get("kind") != "tree_differs_from_reference_substitution":
+        return False
+    try:
+        if len(ast.parse(d.get("repl") or "").body) < 2:
+            return False
+    except SyntaxError:
+        return False
+    for before, text in _c14_match_lines(rec):
+        if before.strip() or "\t" in before:
+            return True
+        indent = len(before)
+        if any(l.strip() and len(l) - len(l.lstrip(" ")) < indent for l in text.split("\n")[1:]):
+            return True
+    return False
+
+
+@classifier("sub-multiline-literal-in-replacement-reindented")
+def _c14_literal(rec):
+    """The lines of the instantiated replacement are indented to the column of the match, including the lines inside a string literal of the template that
+    spans several lines: the value of the literal changes."""
+    d = rec.get("detail") or {}
+    if rec.get("kind") != "tree_differs_from_reference_substitution":
+        return False
+    try:
+        tree = ast.parse(d.get("repl") or "")
+    except SyntaxError:
+        return False
+    multi = any(isinstance(n, ast.Constant) and isinstance(n.value, (str, bytes)) and n.end_lineno > n.lineno for n in ast.walk(tree)) or \
+        any(isinstance(n, ast.JoinedStr) and n.end_lineno > n.lineno for n in ast.walk(tree))
+    return multi and any(before and not before.strip() for before, _ in _c14_match_lines(rec))
+
+
+@classifier("sub-wildcard-named-root-is-the-match-itself")
+def _c14_root(rec):
+    """`root` is the field in which a match stores the matched node itself: a wildcard called {{root}} is instantiated with the whole match instead of its
+    binding (`sub("foo({{root}})", "bar({{root}})", "foo(1)")` gives `bar(foo(1))`)."""
+    d = rec.get("detail") or {}
+    return rec.get("kind") == "tree_differs_from_reference_substitution" and "{{root}}" in (d.get("pattern") or "") and "{{root}}" in (d.get("repl") or "")
+
+
 # ----------------------------------------------------------------------------------------- shared helpers
 def _step(rec):
     """(rule, before, after) of the step a behavioural violation is attributed to."""
